@@ -20,6 +20,11 @@
 (*               of core wrapping when MaxDepth = 2.                        *)
 (*  Mode "slice" every slice [a:b:c], a,b,c in {absent, -SlRange..SlRange}.     *)
 (*  Mode "cmp"   comparators, && || ! over all pairs of a value alphabet.   *)
+(*  Mode "stable" sort_by / sort / max_by / min_by / reverse over arrays of  *)
+(*               17..40 elements with 2-3 distinct sort keys and a unique   *)
+(*               id (sort_by must be stable: elements with equal keys keep  *)
+(*               their order; library sorts only lose stability above 16    *)
+(*               elements), and sort over long arrays with duplicates.      *)
 (*  Mode "ident" identifiers / hash keys / literals / raw strings over keys *)
 (*               that need quoting, escaping, or are non-ASCII.             *)
 (*                                                                          *)
@@ -86,10 +91,25 @@ D14 == JObj([k \in IdentKeys \cup {<<>>} |-> IF k = A THEN JObj([q \in IdentKeys
 CmpVals == <<JNull, JBool(TRUE), JBool(FALSE), JInt(0), JInt(1), JInt(Neg(1)), S(<<>>), S(A), S(B), EmptyArr, Ar(<<JInt(1)>>),
              EmptyObj, O1(A, JInt(1)), Ar(<<JNull>>)>>
 D15 == Ar(CmpVals)
-Docs == <<D1, D2, D3, D4, D5, D6, D7, D8, D9, D10, D11, D12, D13, D14, D15>>
+\* stability documents: n objects {k: one of 2-3 keys in a non-monotone pattern, id: position}; exactly one element has the
+\* unique largest and one the unique smallest key (so max_by / min_by are determined)
+KK == <<107>>  KID == <<105, 100>>
+Obj2(kv, i) == JObj((KK :> kv) @@ (KID :> JInt(i)))
+NumKey(i, n) == IF i = n - 5 THEN 9 ELSE IF i = 4 THEN 0 ELSE 1 + ((i * 7) % 3)
+StrKey(i, n) == IF i = 3 THEN <<122>> ELSE IF i = n - 2 THEN <<>> ELSE <<98 + ((i * 5) % 2)>>
+D16 == Ar([i \in 1..17 |-> Obj2(JInt(NumKey(i, 17)), i)])
+D17 == O1(A, Ar([i \in 1..24 |-> Obj2(S(StrKey(i, 24)), i)]))
+D18 == Ar([i \in 1..40 |-> Obj2(JInt(NumKey(i, 40)), i)])
+D19 == O1(A, Ar([i \in 1..33 |-> Obj2(JInt(1 + ((i * 3) % 2)), i)]))       \* two keys only, ties at both extremes
+\* long arrays of numbers / strings with duplicates
+D20 == Ar([i \in 1..17 |-> JInt((i * 7) % 5)])
+D21 == O1(A, Ar([i \in 1..40 |-> S(<<97 + ((i * 11) % 4)>>)]))
+D22 == Ar([i \in 1..29 |-> JInt(3 - ((i * i) % 7))])
+Docs == <<D1, D2, D3, D4, D5, D6, D7, D8, D9, D10, D11, D12, D13, D14, D15, D16, D17, D18, D19, D20, D21, D22>>
 DocSel == CASE Mode = "wrap" -> <<1, 2, 3, 4, 5, 6, 7, 8>>
             [] Mode = "fn" -> <<1, 3, 4, 5, 6>>
-            [] Mode = "slice" -> <<7, 9, 10, 11, 12, 13, 3>>
+            [] Mode = "slice" -> <<7, 9, 10, 11, 12, 13, 3, 1, 4>>
+            [] Mode = "stable" -> <<16, 17, 18, 19, 20, 21, 22>>
             [] Mode = "cmp" -> <<15, 6>>
             [] Mode = "ident" -> <<14, 1>>
             [] OTHER -> <<>>
@@ -189,6 +209,16 @@ Parts == {Ab} \cup { N(i) : i \in 0..SlRange } \cup { N(Neg(i)) : i \in 1..SlRan
 SliceCases(u) == { <<"slc", Cur, Sl(a, b, c), Cur>> : a \in Parts, b \in Parts, c \in Parts }
               \cup { <<"slc", Fa, Sl(a, b, c), Fa>> : a \in Parts, b \in {Ab, N(1), N(Neg(1))}, c \in Parts }
               \cup { <<"idx", Cur, i>> : i \in (0 - SlRange - 2)..(SlRange + 2) }
+              \* a second slice in one expression that omits a bound: after a pipe, in a multi-select, inside a projection
+              \cup { <<"pipe", <<"slc", Fa, Sl(N(2), N(8), Ab), Cur>>, <<"slc", Cur, Sl(Ab, N(3), Ab), Cur>>>>,
+                     <<"pipe", <<"slc", Fa, Sl(N(1), Ab, Ab), Cur>>, <<"slc", Cur, Sl(Ab, N(2), Ab), Cur>>>>,
+                     <<"pipe", <<"slc", Fa, Sl(Ab, N(3), Ab), Cur>>, <<"slc", Cur, Sl(N(1), Ab, Ab), Cur>>>>,
+                     <<"mls", <<<<"slc", Fa, Sl(N(1), Ab, Ab), Cur>>, <<"slc", Fb, Sl(Ab, N(2), Ab), Cur>>>>>>,
+                     <<"mls", <<<<"slc", Fa, Sl(Ab, N(2), Ab), Cur>>, <<"slc", Fa, Sl(N(1), Ab, Ab), Cur>>>>>>,
+                     <<"slc", Fa, Sl(N(1), N(3), Ab), <<"prj", Cur, <<"slc", Cur, Sl(Ab, N(1), Ab), Cur>>>>>>,
+                     <<"slc", Fa, Sl(N(1), Ab, Ab), <<"slc", Cur, Sl(Ab, N(2), Ab), Cur>>>>,
+                     <<"slc", Cur, Sl(Ab, N(3), Ab), <<"slc", Cur, Sl(N(1), Ab, Ab), Cur>>>>,
+                     <<"slc", <<"slc", Fa, Sl(N(1), Ab, Ab), Cur>>, Sl(Ab, N(2), Ab), Cur>> }
 
 (* cmp mode *)
 AllOps == {"eq", "ne", "lt", "le", "gt", "ge"}
@@ -204,6 +234,25 @@ CmpCases(u) == { Cmp(op, L(x), L(y)) : op \in AllOps, x \in CV, y \in CV }
             \cup { <<"and", Par(<<"or", L(x), L(y)>>), L(z)>> : x \in {JNull, JInt(0)}, y \in {JBool(FALSE), S(A)}, z \in {EmptyArr, JInt(1)} }
             \cup { <<"or", Cmp("lt", L(x), L(y)), Cmp("eq", L(y), L(z))>> : x \in {JInt(0), JInt(1)}, y \in {JInt(1), S(A)}, z \in {JInt(1), JNull} }
 
+(* stable mode *)
+FK == <<"fld", KK>>  FID == <<"fld", KID>>
+Rev1 == Sl(Ab, Ab, N(Neg(1)))
+StableSubjects == { Cur, Fa, Fn("reverse", <<Cur>>), Fn("reverse", <<Fa>>), <<"slc", Cur, Rev1, Cur>>, <<"slc", Fa, Sl(N(1), Ab, Ab), Cur>> }
+StableCases(u) ==
+  UNION { { Fn("sort_by", <<x, Ref(FK)>>), <<"prj", Fn("sort_by", <<x, Ref(FK)>>), FID>>, <<"prj", Fn("sort_by", <<x, Ref(FK)>>), FK>>,
+            <<"pipe", Fn("sort_by", <<x, Ref(FK)>>), <<"idx", Cur, 0>>>>, <<"sub", <<"idx", Fn("sort_by", <<x, Ref(FK)>>), Neg(1)>>, FID>>,
+            Fn("reverse", <<Fn("sort_by", <<x, Ref(FK)>>)>>), Fn("map", <<Ref(FID), Fn("sort_by", <<x, Ref(FK)>>)>>),
+            <<"prj", Fn("sort_by", <<Fn("sort_by", <<x, Ref(FID)>>), Ref(FK)>>), FID>>,
+            <<"slc", Fn("sort_by", <<x, Ref(FK)>>), Sl(N(2), N(9), Ab), FID>>,
+            <<"prj", Fn("sort_by", <<x, Ref(Fn("to_string", <<FK>>))>>), FID>>,
+            <<"prj", Fn("sort_by", <<x, Ref(Fn("length", <<Fn("to_array", <<FK>>)>>))>>), FID>>,       \* one key for all: order unchanged
+            Fn("max_by", <<x, Ref(FK)>>), Fn("min_by", <<x, Ref(FK)>>), <<"sub", Fn("max_by", <<x, Ref(FK)>>), FID>>,
+            <<"sub", Fn("min_by", <<x, Ref(FID)>>), FID>>, <<"sub", Fn("max_by", <<x, Ref(FID)>>), FID>>,
+            Fn("sort", <<x>>), Fn("sort", <<<<"prj", x, FK>>>>), Fn("sort", <<<<"prj", x, FID>>>>), Fn("reverse", <<Fn("sort", <<x>>)>>),
+            <<"idx", Fn("sort", <<x>>), 0>>, Fn("max", <<x>>), Fn("min", <<x>>), Fn("sort_by", <<x, Ref(Cur)>>),
+            Fn("max", <<<<"prj", x, FK>>>>), Fn("min", <<<<"prj", x, FK>>>>), Fn("length", <<Fn("sort_by", <<x, Ref(FK)>>)>>) }
+          : x \in StableSubjects }
+
 (* ident mode *)
 IdentCases(u) == { <<"fld", k>> : k \in IdentKeys } \cup { <<"sub", Fa, <<"fld", k>>>> : k \in IdentKeys }
               \cup { <<"mhs", <<<<k, <<"fld", k>>>>, <<A, Cur>>>>>> : k \in IdentKeys \ {A} } \cup { L(S(k)) : k \in IdentKeys }
@@ -216,7 +265,7 @@ IdentCases(u) == { <<"fld", k>> : k \in IdentKeys } \cup { <<"sub", Fa, <<"fld",
 
 -----------------------------------------------------------------------------
 First == CASE Mode = "wrap" -> Bases [] Mode = "fn" -> FnCases(0) [] Mode = "slice" -> SliceCases(0) [] Mode = "cmp" -> CmpCases(0)
-           [] Mode = "ident" -> IdentCases(0) [] Mode = "docs" -> { I(i) : i \in 1..Len(Docs) }
+           [] Mode = "ident" -> IdentCases(0) [] Mode = "stable" -> StableCases(0) [] Mode = "docs" -> { I(i) : i \in 1..Len(Docs) }
 Init == e = Cur /\ depth = 0
 Next == \/ /\ depth = 0 /\ depth' = 1 /\ e' \in { x \in First : Gen(x) }
         \/ /\ depth >= 1 /\ depth < MaxDepth /\ depth' = depth + 1
@@ -298,6 +347,16 @@ ExprLaws(x, d) ==
   /\ (x[1] = "slc" /\ x[2] = Cur /\ x[4] = Cur /\ IsArrV(d) /\ ~StepZero(x[3]) =>
         /\ Len(SliceOf(d[2], x[3])) = SliceCount(Len(d[2]), x[3])
         /\ \A i \in 1..Len(SliceOf(d[2], x[3])) : \E j \in 1..Len(d[2]) : d[2][j] = SliceOf(d[2], x[3])[i])
+\* sort_by is stable: the result is ordered by key, and elements with equal keys keep their relative (id) order
+StableLaw(d) == LET arr == IF IsArrV(d) THEN d ELSE E1(Fa, d)
+                    r == E1(Fn("sort_by", <<Cur, Ref(FK)>>), arr)
+                IN (IsArrV(arr) /\ ~Abn(r) /\ Len(arr[2]) > 0 /\ IsObjV(arr[2][1])) =>
+                     /\ Len(r[2]) = Len(arr[2])
+                     /\ \A i \in 1..(Len(r[2]) - 1) :
+                          LET x == r[2][i][2]  y == r[2][i + 1][2] IN
+                          \/ VLess(x[KK], y[KK])
+                          \/ (x[KK] = y[KK] /\ x[KID][2] < y[KID][2])
 Identities == depth >= 1 /\ Mode # "docs" =>
-  \A i \in 1..Len(DocSel) : LET d == Docs[DocSel[i]]  R == E1(e, d) IN ExprLaws(e, d) /\ (Abn(R) \/ ValueLaws(R))
+  /\ \A i \in 1..Len(DocSel) : LET d == Docs[DocSel[i]]  R == E1(e, d) IN ExprLaws(e, d) /\ (Abn(R) \/ ValueLaws(R))
+  /\ (Mode = "stable" => \A i \in 1..Len(DocSel) : StableLaw(Docs[DocSel[i]]))
 =============================================================================
